@@ -71,7 +71,9 @@ class HTTPConnection(Mapping[str, Any], MoreInfoFromHeaderMixin):
         The full URL of this request.
         """
         try:
-            return URL(environ=self._environ)
+            url = URL(environ=self._environ)
+            url.port  # "Host: a:b" has no numeric port
+            return url
         except ValueError:  # e.g. Host: [  -> "Invalid IPv6 URL"
             raise HTTPException(400, content="Malformed request URL") from None
 
